@@ -2,6 +2,7 @@ package checks
 
 import (
 	"go/ast"
+	"go/constant"
 	"go/token"
 	"go/types"
 	"sort"
@@ -464,8 +465,16 @@ func sfErrHandled(f *engine.Fn, call *ast.CallExpr, mustPanic bool) bool {
 			return
 		}
 		a, b, op, isC := sfCmp(is.Cond)
-		if !isC || op != token.NEQ || !isNil(b) || engine.ObjOf(info, a) != errObj {
+		if !isC || (op != token.NEQ && op != token.EQL) || !isNil(b) || engine.ObjOf(info, a) != errObj {
 			return
+		}
+		failing := is.Body // the branch taken when the call failed
+		if op == token.EQL {
+			eb, isBlock := is.Else.(*ast.BlockStmt)
+			if !isBlock {
+				return
+			}
+			failing = eb
 		}
 		// the if must directly follow from the assignment: same init, or assignment dominates and no reassignment in between (approximated by position)
 		if is.Init != assign {
@@ -488,10 +497,10 @@ func sfErrHandled(f *engine.Fn, call *ast.CallExpr, mustPanic bool) bool {
 				return
 			}
 		}
-		if len(is.Body.List) == 0 {
+		if len(failing.List) == 0 {
 			return
 		}
-		switch last := is.Body.List[len(is.Body.List)-1].(type) {
+		switch last := failing.List[len(failing.List)-1].(type) {
 		case *ast.ExprStmt:
 			if cl, ok := last.X.(*ast.CallExpr); ok && !f.Prog.MayReturn(info, cl) {
 				found = true
@@ -507,3 +516,764 @@ func sfErrHandled(f *engine.Fn, call *ast.CallExpr, mustPanic bool) bool {
 
 // sfCfgBlock is go/cfg's basic block (for avoid-sets handed to Graph.Reach).
 type sfCfgBlock = cfg.Block
+
+// =====================================================================
+// Helper-transparent, polarity-based analysis (robust against extracted
+// helpers, inverted conditions, hoisted locals, switch/if forms).
+// =====================================================================
+
+// sfCtx is a function body analysed in the context of a call chain that
+// starts in a root function: parameters of helper bodies are bound to the
+// argument expressions at the call that entered them.
+type sfCtx struct {
+	fn     *engine.Fn
+	parent *sfCtx
+	call   *ast.CallExpr // call in parent.fn that entered fn (nil for the root)
+}
+
+func sfRoot(f *engine.Fn) *sfCtx { return &sfCtx{fn: f} }
+
+func (c *sfCtx) root() *sfCtx {
+	for c.parent != nil {
+		c = c.parent
+	}
+	return c
+}
+
+func (c *sfCtx) depth() int {
+	n := 0
+	for x := c; x.parent != nil; x = x.parent {
+		n++
+	}
+	return n
+}
+
+func (c *sfCtx) has(f *engine.Fn) bool {
+	for x := c; x != nil; x = x.parent {
+		if x.fn == f {
+			return true
+		}
+	}
+	return false
+}
+
+// outerSite maps a site of c.fn to the site in the root function through which it is reached.
+func (c *sfCtx) outerSite(s *engine.Site) *engine.Site {
+	for x := c; x.parent != nil; x = x.parent {
+		s = x.parent.fn.SiteOf(x.call)
+		if s == nil {
+			return nil
+		}
+	}
+	return s
+}
+
+// sfParamIdx returns the index of obj among f's parameters (-1: none, -2: receiver).
+func sfParamIdx(f *engine.Fn, obj types.Object) int {
+	if obj == nil {
+		return -1
+	}
+	if r := sfRecvObj(f); r != nil && r == obj {
+		return -2
+	}
+	for i := 0; ; i++ {
+		p := paramObj(f, i)
+		if p == nil {
+			return -1
+		}
+		if p == obj {
+			return i
+		}
+	}
+}
+
+// enter returns the context of the in-program callee of call (nil when the
+// callee has no body in the loaded program, is recursive, or too deep).
+func (c *sfCtx) enter(call *ast.CallExpr, maxDepth int) *sfCtx {
+	if c.depth() >= maxDepth {
+		return nil
+	}
+	fn, _ := typeutil.Callee(c.fn.Info(), call).(*types.Func)
+	h := c.fn.Prog.FnOf(fn)
+	if h == nil || c.has(h) {
+		return nil
+	}
+	return &sfCtx{fn: h, parent: c, call: call}
+}
+
+// arg returns the argument expression (in the parent context) bound to parameter i of c.fn.
+func (c *sfCtx) arg(i int) ast.Expr {
+	if c.call == nil {
+		return nil
+	}
+	if i == -2 {
+		if se, ok := ast.Unparen(c.call.Fun).(*ast.SelectorExpr); ok {
+			return se.X
+		}
+		return nil
+	}
+	if sig, ok := c.fn.Obj.Type().(*types.Signature); ok && sig.Variadic() && i >= sig.Params().Len()-1 {
+		return nil
+	}
+	if i >= 0 && i < len(c.call.Args) {
+		return c.call.Args[i]
+	}
+	return nil
+}
+
+// sfSingleDef returns the defining expression of a local with exactly one
+// definition (hoisted value / alias), else nil.
+func sfSingleDef(f *engine.Fn, obj types.Object) ast.Expr {
+	v, ok := obj.(*types.Var)
+	if !ok || v.IsField() || sfParamIdx(f, obj) != -1 {
+		return nil
+	}
+	defs, clean := sfDefs(f, obj)
+	if !clean || len(defs) != 1 {
+		return nil
+	}
+	return defs[0]
+}
+
+// sfRootParam resolves e through aliases and helper parameters to a
+// parameter of the root function; returns its index, -2 for the root
+// receiver, -1 otherwise.
+func sfRootParam(c *sfCtx, e ast.Expr) int {
+	for i := 0; i < 12 && e != nil; i++ {
+		id, ok := ast.Unparen(e).(*ast.Ident)
+		if !ok {
+			return -1
+		}
+		obj := c.fn.Info().ObjectOf(id)
+		if pi := sfParamIdx(c.fn, obj); pi != -1 {
+			if c.parent == nil {
+				return pi
+			}
+			e = c.arg(pi)
+			c = c.parent
+			continue
+		}
+		d := sfSingleDef(c.fn, obj)
+		if d == nil {
+			return -1
+		}
+		e = d
+	}
+	return -1
+}
+
+// sfFact: expression e (in ctx) is known to evaluate to val.
+type sfFact struct {
+	ctx *sfCtx
+	e   ast.Expr
+	val bool
+}
+
+// sfTagOf: if e is an expression of a case list of a tagged switch in f,
+// returns the switch tag.
+func sfTagOf(f *engine.Fn, e ast.Expr) ast.Expr {
+	var tag ast.Expr
+	engine.InspectBody(f, func(n ast.Node) {
+		sw, ok := n.(*ast.SwitchStmt)
+		if !ok || sw.Tag == nil || tag != nil {
+			return
+		}
+		for _, cl := range sw.Body.List {
+			for _, x := range cl.(*ast.CaseClause).List {
+				if x == e {
+					tag = sw.Tag
+				}
+			}
+		}
+	})
+	return tag
+}
+
+// sfExpand splits a known boolean into the atomic facts it implies:
+// true && / false || are split, ! is stripped, single-definition boolean
+// locals, helper parameters and one-line boolean helpers (`return <expr>`)
+// are followed. The composite itself is always kept as a fact, too.
+func sfExpand(c *sfCtx, e ast.Expr, val bool, depth int, out *[]sfFact) {
+	e = ast.Unparen(e)
+	*out = append(*out, sfFact{c, e, val})
+	if depth <= 0 {
+		return
+	}
+	switch x := e.(type) {
+	case *ast.UnaryExpr:
+		if x.Op == token.NOT {
+			sfExpand(c, x.X, !val, depth, out)
+		}
+	case *ast.BinaryExpr:
+		if (x.Op == token.LAND && val) || (x.Op == token.LOR && !val) {
+			sfExpand(c, x.X, val, depth, out)
+			sfExpand(c, x.Y, val, depth, out)
+		}
+	case *ast.Ident:
+		obj := c.fn.Info().ObjectOf(x)
+		if pi := sfParamIdx(c.fn, obj); pi != -1 {
+			if c.parent != nil {
+				if a := c.arg(pi); a != nil {
+					sfExpand(c.parent, a, val, depth-1, out)
+				}
+			}
+			return
+		}
+		if d := sfSingleDef(c.fn, obj); d != nil {
+			if _, isTA := ast.Unparen(d).(*ast.TypeAssertExpr); !isTA {
+				sfExpand(c, d, val, depth-1, out)
+			}
+		}
+	case *ast.CallExpr:
+		if h := c.enter(x, 6); h != nil {
+			rs := sfReturns(h.fn)
+			if len(rs) == 1 && len(rs[0].Results) == 1 && len(h.fn.Body.List) == 1 {
+				sfExpand(h, rs[0].Results[0], val, depth-1, out)
+			}
+		}
+	}
+}
+
+// sfFactsAt lists what is known to hold when site s of c.fn executes: the
+// polarity-resolved gates of s, case labels of tagged switches (as `tag ==
+// label`), and, for helper bodies, the facts at the call that entered them.
+func sfFactsAt(c *sfCtx, s *engine.Site) []sfFact {
+	var out []sfFact
+	for x, site := c, s; x != nil && site != nil; {
+		for _, g := range x.fn.Graph().Gates(site) {
+			if tag := sfTagOf(x.fn, g.Cond); tag != nil {
+				eq := &ast.BinaryExpr{X: tag, Op: token.EQL, Y: g.Cond, OpPos: g.Cond.Pos()}
+				out = append(out, sfFact{x, eq, g.OnTrue})
+				continue
+			}
+			sfExpand(x, g.Cond, g.OnTrue, 4, &out)
+		}
+		if x.parent == nil {
+			break
+		}
+		site = x.parent.fn.SiteOf(x.call)
+		x = x.parent
+	}
+	return out
+}
+
+// sfKnown reports whether some fact with value val satisfies match.
+func sfKnown(facts []sfFact, val bool, match func(c *sfCtx, e ast.Expr) bool) bool {
+	for _, f := range facts {
+		if f.val == val && match(f.ctx, f.e) {
+			return true
+		}
+	}
+	return false
+}
+
+// sfDS is a site reached from a root function, possibly through helpers.
+type sfDS struct {
+	ctx  *sfCtx
+	site *engine.Site
+}
+
+func (d sfDS) outer() *engine.Site { return d.ctx.outerSite(d.site) }
+func (d sfDS) facts() []sfFact     { return sfFactsAt(d.ctx, d.site) }
+func (d sfDS) info() *types.Info   { return d.ctx.fn.Info() }
+func (d sfDS) direct() bool        { return d.ctx.parent == nil }
+func (d sfDS) callee() string      { return d.site.CalleeName() }
+func (d sfDS) arg(i int) ast.Expr  { return d.site.Call.Args[i] }
+func (d sfDS) rootParam(i int) int { return sfRootParam(d.ctx, d.site.Call.Args[i]) }
+func (d sfDS) where() token.Pos {
+	if o := d.outer(); o != nil {
+		return o.Pos()
+	}
+	return d.site.Pos()
+}
+
+// sfCtxs lists the root context and every helper context reachable from it
+// through static calls to functions of the loaded program (bounded depth).
+// Functions for which stop returns true are not entered.
+func sfCtxs(root *sfCtx, maxDepth int, stop func(name string) bool) []*sfCtx {
+	out := []*sfCtx{root}
+	for i := 0; i < len(out); i++ {
+		c := out[i]
+		for _, s := range c.fn.Calls() {
+			if s.Call == nil || s.InGo {
+				continue
+			}
+			if stop != nil && stop(s.CalleeName()) {
+				continue
+			}
+			if h := c.enter(s.Call, maxDepth); h != nil {
+				out = append(out, h)
+			}
+		}
+	}
+	return out
+}
+
+// sfDeepCalls returns every call site satisfying match in f or in helpers reachable from it.
+func sfDeepCalls(f *engine.Fn, maxDepth int, stop func(string) bool, match func(c *sfCtx, s *engine.Site) bool) []sfDS {
+	var out []sfDS
+	for _, c := range sfCtxs(sfRoot(f), maxDepth, stop) {
+		for _, s := range c.fn.Calls() {
+			if s.Call != nil && match(c, s) {
+				out = append(out, sfDS{c, s})
+			}
+		}
+	}
+	return out
+}
+
+func sfDeepCallsTo(f *engine.Fn, maxDepth int, pats ...string) []sfDS {
+	stop := func(n string) bool { return engine.MatchName(n, pats...) }
+	return sfDeepCalls(f, maxDepth, stop, func(c *sfCtx, s *engine.Site) bool { return engine.MatchName(s.CalleeName(), pats...) })
+}
+
+// sfDeepFieldCalls: calls `<x>.<field>.<method>()` on the given struct field.
+func sfDeepFieldCalls(f *engine.Fn, maxDepth int, field *types.Var, methods ...string) []sfDS {
+	return sfDeepCalls(f, maxDepth, nil, func(c *sfCtx, s *engine.Site) bool {
+		fld, m := sfMethodOnField(c.fn.Info(), s.Call)
+		if fld == nil || field == nil || fld != field.Origin() {
+			return false
+		}
+		for _, x := range methods {
+			if x == m {
+				return true
+			}
+		}
+		return len(methods) == 0
+	})
+}
+
+// sfLeaf is one possible origin of a value.
+type sfLeaf struct {
+	ctx   *sfCtx
+	e     ast.Expr // nil: zero value (declared without initialiser)
+	facts []sfFact // what held where the value was produced
+	idx   int      // result index when e is a multi-value call bound by a tuple assignment, else -1
+}
+
+// sfReachingDefs returns the assignments to obj that may reach `use` (a def
+// is dropped when another def lies on every path between it and the use).
+type sfDef struct {
+	rhs  ast.Expr // nil for zero-value declarations
+	idx  int      // result index when rhs is a multi-value call, else -1
+	site *engine.Site
+}
+
+func sfReachingDefs(f *engine.Fn, obj types.Object, use *engine.Site) ([]sfDef, bool) {
+	info := f.Info()
+	var defs []sfDef
+	clean := true
+	add := func(n ast.Node, rhs ast.Expr, idx int) {
+		defs = append(defs, sfDef{rhs, idx, f.SiteOf(n)})
+	}
+	engine.InspectBody(f, func(n ast.Node) {
+		switch s := n.(type) {
+		case *ast.AssignStmt:
+			for i, l := range s.Lhs {
+				id, isId := ast.Unparen(l).(*ast.Ident)
+				if !isId || info.ObjectOf(id) != obj {
+					continue
+				}
+				if s.Tok != token.ASSIGN && s.Tok != token.DEFINE {
+					clean = false
+					continue
+				}
+				if len(s.Rhs) == len(s.Lhs) {
+					add(s, s.Rhs[i], -1)
+				} else if len(s.Rhs) == 1 {
+					add(s, s.Rhs[0], i)
+				}
+			}
+		case *ast.ValueSpec:
+			for i, id := range s.Names {
+				if info.ObjectOf(id) != obj {
+					continue
+				}
+				switch {
+				case len(s.Values) == len(s.Names):
+					add(s, s.Values[i], -1)
+				case len(s.Values) == 1:
+					add(s, s.Values[0], i)
+				default:
+					add(s, nil, -1)
+				}
+			}
+		case *ast.IncDecStmt:
+			if id, isId := ast.Unparen(s.X).(*ast.Ident); isId && info.ObjectOf(id) == obj {
+				clean = false
+			}
+		case *ast.UnaryExpr:
+			if s.Op == token.AND {
+				if id, isId := ast.Unparen(s.X).(*ast.Ident); isId && info.ObjectOf(id) == obj {
+					clean = false
+				}
+			}
+		case *ast.RangeStmt:
+			for _, l := range []ast.Expr{s.Key, s.Value} {
+				if id, isId := l.(*ast.Ident); isId && info.ObjectOf(id) == obj {
+					clean = false
+				}
+			}
+		}
+	})
+	// named results start at their zero value
+	if f.Type.Results != nil {
+		for _, fld := range f.Type.Results.List {
+			for _, nm := range fld.Names {
+				if info.ObjectOf(nm) == obj {
+					defs = append(defs, sfDef{nil, -1, nil})
+				}
+			}
+		}
+	}
+	if use == nil {
+		return defs, clean
+	}
+	g := f.Graph()
+	before := func(a, b *engine.Site) bool { // a executes before b inside one block
+		return a.Block == b.Block && (a.Idx < b.Idx || (a.Idx == b.Idx && a.Node.End() <= b.Node.Pos()))
+	}
+	var out []sfDef
+	for _, d := range defs {
+		// killers: the other definitions
+		avoid := map[*sfCfgBlock]bool{}
+		killedLocal := false
+		for _, k := range defs {
+			if k.site == nil || k.site == d.site {
+				continue
+			}
+			if before(k.site, use) && (d.site == nil || d.site.Block != use.Block || before(d.site, k.site)) {
+				killedLocal = true // a later definition in the block of the use
+			}
+			if d.site != nil && before(d.site, k.site) && !(k.site.Block == use.Block && before(use, k.site)) {
+				if d.site.Block != use.Block || !before(d.site, use) || before(k.site, use) {
+					killedLocal = true // re-defined right after d in d's own block
+				}
+			}
+			if k.site.Block != use.Block && (d.site == nil || k.site.Block != d.site.Block) {
+				avoid[k.site.Block] = true
+			}
+		}
+		if killedLocal {
+			continue
+		}
+		reaches := false
+		switch {
+		case d.site == nil: // initial value: a path from the entry that meets no definition
+			reaches = len(g.CFG.Blocks) > 0 && (g.CFG.Blocks[0] == use.Block || g.Reach(g.CFG.Blocks[0], use.Block, avoid))
+			if avoid[g.CFG.Blocks[0]] {
+				reaches = false
+			}
+		case before(d.site, use):
+			reaches = true
+		default:
+			for _, sc := range d.site.Block.Succs {
+				if sc == use.Block || g.Reach(sc, use.Block, avoid) {
+					reaches = true
+				}
+			}
+		}
+		if reaches {
+			out = append(out, d)
+		}
+	}
+	return out, clean
+}
+
+// sfLeafs resolves the possible origins of the value of e evaluated at site
+// `at` of c.fn: locals are followed to their reaching definitions, helper
+// parameters to the call-site arguments, results of in-program helpers to
+// their return expressions. Calls for which stop is true are leaves.
+func sfLeafs(c *sfCtx, e ast.Expr, at *engine.Site, depth int, stop func(c *sfCtx, call *ast.CallExpr) bool) []sfLeaf {
+	var out []sfLeaf
+	sfLeafsRec(c, e, at, -1, depth, stop, nil, &out)
+	return out
+}
+
+func sfLeafsRec(c *sfCtx, e ast.Expr, at *engine.Site, idx, depth int, stop func(*sfCtx, *ast.CallExpr) bool, facts []sfFact, out *[]sfLeaf) {
+	if e == nil {
+		*out = append(*out, sfLeaf{c, nil, facts, -1})
+		return
+	}
+	e = ast.Unparen(e)
+	if depth <= 0 {
+		*out = append(*out, sfLeaf{c, e, facts, idx})
+		return
+	}
+	switch x := e.(type) {
+	case *ast.Ident:
+		if sfLeafsVar(c, c.fn.Info().ObjectOf(x), at, depth, stop, facts, out) {
+			return
+		}
+	case *ast.CallExpr:
+		if stop != nil && stop(c, x) {
+			break
+		}
+		if h := c.enter(x, 6); h != nil {
+			want := idx
+			if want < 0 {
+				want = 0
+			}
+			rs := sfReturns(h.fn)
+			if len(rs) == 0 {
+				break
+			}
+			for _, r := range rs {
+				rsite := h.fn.SiteOf(r)
+				rf := facts
+				if rsite != nil {
+					rf = append(append([]sfFact{}, facts...), sfFactsAt(h, rsite)...)
+				}
+				if len(r.Results) > want {
+					sfLeafsRec(h, r.Results[want], rsite, -1, depth-1, stop, rf, out)
+				} else if len(r.Results) == 0 {
+					if nr := sfNamedResult(h.fn, want); nr == nil || !sfLeafsVar(h, nr, rsite, depth-1, stop, rf, out) {
+						*out = append(*out, sfLeaf{h, nil, rf, -1})
+					}
+				}
+			}
+			return
+		}
+	}
+	*out = append(*out, sfLeaf{c, e, facts, idx})
+}
+
+// sfLeafsVar resolves a local variable / parameter / named result; false when obj is not one.
+func sfLeafsVar(c *sfCtx, obj types.Object, at *engine.Site, depth int, stop func(*sfCtx, *ast.CallExpr) bool, facts []sfFact, out *[]sfLeaf) bool {
+	v, isVar := obj.(*types.Var)
+	if !isVar || v.IsField() || v.Pkg() == nil || v.Parent() == v.Pkg().Scope() {
+		return false
+	}
+	if c.fn.Parent != nil && !(c.fn.Body.Pos() <= obj.Pos() && obj.Pos() < c.fn.Body.End()) && sfParamIdx(c.fn, obj) == -1 {
+		// a variable captured by a function literal: resolve it in the enclosing function (flow-insensitively)
+		return sfLeafsVar(&sfCtx{fn: c.fn.Parent, parent: c.parent, call: c.call}, obj, nil, depth, stop, facts, out)
+	}
+	defs, clean := sfReachingDefs(c.fn, obj, at)
+	if !clean {
+		return false
+	}
+	if pi := sfParamIdx(c.fn, obj); pi != -1 {
+		// the incoming argument also reaches the use unless a re-assignment lies on every path
+		covered := false
+		for _, d := range defs {
+			if d.site != nil && at != nil && c.fn.Graph().Dominates(d.site, at) {
+				covered = true
+			}
+		}
+		if len(defs) > 0 && !covered {
+			if c.parent != nil && c.arg(pi) != nil {
+				sfLeafsRec(c.parent, c.arg(pi), c.parent.fn.SiteOf(c.call), -1, depth-1, stop, facts, out)
+			} else {
+				*out = append(*out, sfLeaf{c, &ast.Ident{Name: obj.Name()}, facts, -1})
+			}
+		}
+		if len(defs) == 0 {
+			// a parameter that is never re-assigned resolves to the caller's argument
+			if c.parent == nil {
+				return false
+			}
+			a := c.arg(pi)
+			if a == nil {
+				return false
+			}
+			sfLeafsRec(c.parent, a, c.parent.fn.SiteOf(c.call), -1, depth-1, stop, facts, out)
+			return true
+		}
+	} else if len(defs) == 0 {
+		return false
+	}
+	for _, d := range defs {
+		df := facts
+		if d.site != nil {
+			df = append(append([]sfFact{}, facts...), sfFactsAt(c, d.site)...)
+		}
+		if d.rhs == nil {
+			*out = append(*out, sfLeaf{c, nil, df, -1})
+			continue
+		}
+		sfLeafsRec(c, d.rhs, d.site, d.idx, depth-1, stop, df, out)
+	}
+	return true
+}
+
+// sfAllLeafs: every origin of e satisfies pred (and there is at least one).
+func sfAllLeafs(ls []sfLeaf, pred func(l sfLeaf) bool) bool {
+	if len(ls) == 0 {
+		return false
+	}
+	for _, l := range ls {
+		if !pred(l) {
+			return false
+		}
+	}
+	return true
+}
+
+// sfConstBool evaluates a constant boolean expression (literal or named constant).
+func sfConstBool(info *types.Info, e ast.Expr) (val, ok bool) {
+	if tv, has := info.Types[e]; has && tv.Value != nil && tv.Value.Kind() == constant.Bool {
+		return constant.BoolVal(tv.Value), true
+	}
+	return false, false
+}
+
+// sfConstInt evaluates a constant integer expression.
+func sfConstInt(info *types.Info, e ast.Expr) (int64, bool) {
+	if tv, has := info.Types[e]; has && tv.Value != nil && tv.Value.Kind() == constant.Int {
+		if v, exact := constant.Int64Val(tv.Value); exact {
+			return v, true
+		}
+	}
+	return 0, false
+}
+
+// sfCmpNorm decomposes a comparison, also accepting the synthetic `tag == label`.
+func sfCmpNorm(e ast.Expr) (a, b ast.Expr, op token.Token, ok bool) { return sfCmp(e) }
+
+// sfCallerClosureOK: name is in allowed, or is an unexported function whose
+// every caller (transitively, bounded) is.
+func sfCallerClosureOK(p *engine.Prog, name string, allowed map[string]bool, depth int) bool {
+	if allowed[name] {
+		return true
+	}
+	if depth <= 0 {
+		return false
+	}
+	f := p.Func(name)
+	if f == nil || f.Obj == nil || f.Obj.Exported() {
+		return false
+	}
+	callers := engine.CallerSet(p.RefsToFunc(name))
+	if len(callers) == 0 {
+		return false
+	}
+	for _, cl := range callers {
+		if cl == name {
+			continue
+		}
+		if !sfCallerClosureOK(p, cl, allowed, depth-1) {
+			return false
+		}
+	}
+	return true
+}
+
+// sfWritersOK returns the writers that are neither allowed nor helpers of allowed functions.
+func sfWritersOK(p *engine.Prog, writers []string, allowed []string) (bad []string) {
+	am := map[string]bool{}
+	for _, a := range allowed {
+		am[a] = true
+	}
+	for _, w := range writers {
+		if !sfCallerClosureOK(p, w, am, 3) {
+			bad = append(bad, w)
+		}
+	}
+	return bad
+}
+
+// sfDomDS: deep site a executes before deep site b on every path.
+func sfDomDS(a, b sfDS) bool {
+	if sfSameCtx(a.ctx, b.ctx) {
+		return a.ctx.fn.Graph().Dominates(a.site, b.site)
+	}
+	// lift both to their nearest common context
+	for x := a.ctx; x != nil; x = x.parent {
+		for y := b.ctx; y != nil; y = y.parent {
+			if !sfSameCtx(x, y) {
+				continue
+			}
+			sa, sb := sfSiteIn(a, x), sfSiteIn(b, x)
+			return sa != nil && sb != nil && sa != sb && x.fn.Graph().Dominates(sa, sb)
+		}
+	}
+	return false
+}
+
+// sfSiteIn returns the site in context anc through which d is reached.
+func sfSiteIn(d sfDS, anc *sfCtx) *engine.Site {
+	s := d.site
+	for x := d.ctx; !sfSameCtx(x, anc); x = x.parent {
+		if x == nil || x.parent == nil {
+			return nil
+		}
+		s = x.parent.fn.SiteOf(x.call)
+	}
+	return s
+}
+
+// sfFieldCallIs: e is the call `<x>.<field>.<method>(…)`.
+func sfFieldCallIs(c *sfCtx, e ast.Expr, field *types.Var, method string) bool {
+	cl, ok := ast.Unparen(e).(*ast.CallExpr)
+	if !ok || field == nil {
+		return false
+	}
+	fld, m := sfMethodOnField(c.fn.Info(), cl)
+	return fld == field.Origin() && m == method
+}
+
+// c22Uniq removes adjacent duplicates of a sorted slice.
+func c22Uniq(xs []string) []string {
+	var out []string
+	for i, x := range xs {
+		if i == 0 || x != xs[i-1] {
+			out = append(out, x)
+		}
+	}
+	return out
+}
+
+// sfSameCtx: the same function entered through the same chain of calls.
+func sfSameCtx(a, b *sfCtx) bool {
+	for a != nil && b != nil {
+		if a == b {
+			return true
+		}
+		if a.fn != b.fn || a.call != b.call {
+			return false
+		}
+		a, b = a.parent, b.parent
+	}
+	return a == nil && b == nil
+}
+
+// sfOperandIs: every origin of e (aliases, helper parameters followed) satisfies pred.
+func sfOperandIs(cx *sfCtx, e ast.Expr, pred func(c *sfCtx, x ast.Expr) bool) bool {
+	stop := func(c *sfCtx, cl *ast.CallExpr) bool { return pred(c, cl) } // a call that already is what we look for is not entered
+	return sfAllLeafs(sfLeafs(cx, e, nil, 3, stop), func(l sfLeaf) bool { return l.e != nil && pred(l.ctx, l.e) })
+}
+
+// sfIsField returns a predicate "x selects the given struct field".
+func sfIsField(fld *types.Var) func(*sfCtx, ast.Expr) bool {
+	return func(c *sfCtx, x ast.Expr) bool { return sfFieldSel(c.fn.Info(), x, fld) }
+}
+
+// sfReachAfterDS: b can execute after a (lifted to their nearest common context).
+func sfReachAfterDS(a, b sfDS) bool {
+	for x := a.ctx; x != nil; x = x.parent {
+		for y := b.ctx; y != nil; y = y.parent {
+			if !sfSameCtx(x, y) {
+				continue
+			}
+			sa, sb := sfSiteIn(a, x), sfSiteIn(b, x)
+			return sa != nil && sb != nil && x.fn.Graph().ReachableAfter(sa, sb)
+		}
+	}
+	return false
+}
+
+// sfErrCmp: e compares a value of type error with nil (== or !=); the variable's name is irrelevant.
+func sfErrCmp(info *types.Info, e ast.Expr) bool {
+	a, b, op, ok := sfCmp(e)
+	if !ok || (op != token.NEQ && op != token.EQL) {
+		return false
+	}
+	if isNil(a) {
+		a, b = b, a
+	}
+	if !isNil(b) {
+		return false
+	}
+	t := info.TypeOf(a)
+	return t != nil && types.Identical(t, types.Universe.Lookup("error").Type())
+}
